@@ -13,10 +13,10 @@ LEAN_MODULES = ["MpirProofs.Props.C05_div"]
 THEOREMS = ["Mpir.AliasMem.ofInts_ok",
             "Mpir.AliasMem.tdiv_qr_ptr_spec", "Mpir.AliasMem.tdiv_qr_alias", "Mpir.AliasMem.tdiv_q_ptr_spec", "Mpir.AliasMem.tdiv_r_ptr_spec",
             "Mpir.AliasMem.cfdiv_qr_ptr_spec", "Mpir.AliasMem.cfdiv_qr_alias", "Mpir.AliasMem.cfdiv_q_ptr_spec", "Mpir.AliasMem.cfdiv_r_ptr_spec",
-            "Mpir.AliasMem.mod_ptr_spec", "Mpir.AliasMem.div3_alias"]
+            "Mpir.AliasMem.mod_ptr_spec", "Mpir.AliasMem.divexact_ptr_spec", "Mpir.AliasMem.div3_alias"]
 PINS = [("mpz/tdiv_qr.c", None), ("mpz/tdiv_q.c", None), ("mpz/tdiv_r.c", None),
         ("mpz/fdiv_qr.c", None), ("mpz/cdiv_qr.c", None), ("mpz/fdiv_q.c", None), ("mpz/cdiv_q.c", None),
-        ("mpz/fdiv_r.c", None), ("mpz/cdiv_r.c", None), ("mpz/mod.c", None),
+        ("mpz/fdiv_r.c", None), ("mpz/cdiv_r.c", None), ("mpz/mod.c", None), ("mpz/divexact.c", None),
         ("mpz/realloc.c", None), ("gmp-impl.h", "MPZ_REALLOC"), ("gmp-impl.h", "MPZ_TMP_INIT"),
         ("mpz/set.c", None), ("mpz/aors.h", None), ("mpz/aors_ui.h", None)]
 TRUSTED = ["hand-written pointer-level model lean/Mpir/Model/AliasMem.lean (tied by the ops alias_* on every index assignment: values, ALLOC and "
@@ -84,3 +84,15 @@ def gen_ops(rng, tier, ctx=None):
                         v = _values(rng, big)
                         if rng.random() < 0.8: v[n], v[d] = (v[0], v[1]) if n != d else (v[1], v[1])
                         yield "alias_%s %x %x %x 0 %s" % (fn, w, n, d, " ".join(hx(x) for x in v))
+    # mpz_divexact: inside the documented domain only (den != 0, den | num); q = n, q = d, n = d, all distinct
+    for w in range(4):
+        for n in range(4):
+            for d in range(4):
+                for _ in range(reps * 2):
+                    v = _values(rng, big)
+                    if v[d] == 0: v[d] = rng.choice([1, -1, 3, (1 << 64) + 1])
+                    if n != d:
+                        k = _mag(rng, rng.choice([0, 1, 1, 2, 3, big])) * rng.choice([1, -1])
+                        if rng.random() < 0.2: k = rng.choice([1, -1, (1 << 64) - 1, 1 << 64, 1 << 63])     # quotient top limb zero / non-zero
+                        v[n] = v[d] * k
+                    yield "alias_divexact %x %x %x 0 %s" % (w, n, d, " ".join(hx(x) for x in v))
